@@ -36,6 +36,10 @@ ASSUMPTIONS = [
 ]
 
 EIG_TOL = 1e-6
+# nsi_eigenvector_centrality asks ARPACK (eigsh, shift-invert) for tol=1e-8 on
+# the eigenvalue; the vector then carries errors up to ~1e-5 on graphs with a
+# small spectral gap (observed 6.5e-6 at n=40 in the thorough tier)
+NSI_EIG_TOL = 1e-4
 
 
 def make(case, weights=True):
@@ -265,7 +269,8 @@ def oracle_basic(case, rec):
     if connected and n >= 3 and U.sum():
         plan.cmp(net, "nsi_eigenvector_centrality",
                  R.nsi_eigenvector_centrality(A, w),
-                 "nsi_eigenvector_centrality", rtol=EIG_TOL, atol=EIG_TOL)
+                 "nsi_eigenvector_centrality", rtol=NSI_EIG_TOL,
+                 atol=NSI_EIG_TOL)
     if case.get("W") is not None and U.sum():
         Wm = np.array(case["W"], dtype=float) * U
         ref_w = R.weighted_local_clustering(Wm)
